@@ -192,6 +192,27 @@ def main(argv=None):
                 n_obl -= sum(1 for x in refuted_here if obl_id(prop, unit, x) == oid)
             else:
                 violations.append(rec)
+    # thorough tier: every pure unit's contract is also evaluated natively on generated inputs.  On a tree where the
+    # unit's obligations were all discharged a native failure means the engine or a spec function is wrong: checker failure.
+    xcheck = dict(units=0, evaluations=0)
+    if tier == 'thorough':
+        from .contracts import CONTRACTS as _CC
+        for unit in results:
+            c_ = _CC[unit['qualname']]
+            if c_.extra.get('method') or c_.closure_env or unit['error'] or unit['undecided']:
+                continue
+            if any(o['verdict'] != 'proved' and not o['expect_sat'] for o in unit['obls']):
+                continue
+            job = job_for(unit['qualname'], unit['instance'], 'search')
+            job['search'] = dict(n=300, seed=seed + 7, hints=job['hints'])
+            r = native(job, timeout=300)
+            xcheck['units'] += 1
+            xcheck['evaluations'] += r.get('tried', 0)
+            if r.get('harness_error'):
+                errors.append('native cross-check of %s failed to run: %s' % (unit['qualname'], r['harness_error'][-300:]))
+            elif r.get('hit'):
+                errors.append('native evaluation of a PROVED contract failed (engine or spec wrong): %s failed %s on %s'
+                              % (unit['qualname'], r['hit']['run']['failed'], json.dumps(r['hit']['inputs'])[:300]))
     # bounded stand-ins: same contract, native evaluation over generated inputs; never counted as discharged
     from .contracts import CONTRACTS
     for qn in driver.bounded_jobs(prop):
@@ -261,6 +282,8 @@ def main(argv=None):
         rc = 3
     if rc == 0 and undecided:
         rc = 2
+    global XCHECK
+    XCHECK = xcheck
     write_evidence(prop, tier, seed, eng, funcs, n_obl, n_dis, by_backend, solver_time, undecided, errors, violations,
                    known_hits, samples, covers_sat, covers_total, time.time() - t0, len(names), bounded_units)
     for e in errors:
@@ -304,7 +327,7 @@ def write_evidence(prop, tier, seed, eng, funcs, n_obl, n_dis, by_backend, solve
             by_backend=by_backend, solver_time_s=round(solver_time, 3),
             covers_sat=covers_sat, covers_total=covers_total,
             undecided=undecided, checker_failures=errors,
-            bounded_units=list(bounded_units),
+            bounded_units=list(bounded_units), native_cross_check=XCHECK,
             violations=[dict(obligation=v['obligation'], confirmed=v['ladder']['kind'] == 'confirmed') for v in violations],
             known_findings=[dict(obligation=o, witness=w) for o, w in known_hits],
             samples=samples or [dict(note='no discharged post/invariant obligation to sample')],
@@ -352,6 +375,7 @@ ASSUMPTIONS = [
 ]
 
 PROP_META = {}
+XCHECK = {}
 PROP_LEVEL = {'C07': 'other', 'C08': 'other', 'C15': 'other', 'C18': 'other', 'C20': 'other'}
 
 SCENARIO_UNITS = {
